@@ -449,8 +449,29 @@ def build_problem(r, meta=None):
         else:
             c = [cp.get(b, Fr(0)) for cp in comp]
         rows.append({"elem": b, "states": states, "c": c})
+    # water balance: moles of water of the mixed initial solutions + water released by the phases = water of the final solution.
+    # Water coefficient of a phase = O atoms of its formula minus the O atoms carried away by the master species of its elements
+    # (specification; e.g. CaSO4:2H2O -> 6 - 4 = 2, CO2 -> 2 - 3 = -1).
+    try:
+        o_master = {}
+        for e in p["elts"]:
+            sp = re.sub(r"[+-]\d*(\.\d+)?$", "", e.get("species", ""))
+            o_master[e["name"]] = parse_formula(sp).get("O", Fr(0)) if sp and sp != "e" else Fr(0)
+        wc = []
+        for cp in comp:
+            w = cp.get("O", Fr(0))
+            for el, nu in cp.items():
+                if el in SKIP_ELEMS:
+                    continue
+                w -= nu * o_master[STATE_OF.get(el, el)]
+            wc.append(w if p["mineral_water"] else Fr(0))
+        gfw = H(p["gfw_water"])
+        Tw = [H(sol["mass_water"]) / gfw for sol in p["solns"]]
+        rows.append({"elem": "H2O(water)", "states": [{"j": None, "name": "water", "T": Tw, "bound": None, "unc": []}], "c": wc, "water": True})
+    except (KeyError, ValueError):
+        pass
     # every element of a phase must be balanced somewhere (otherwise the phase could create mass)
-    balanced = set(r_["elem"] for r_ in rows)
+    balanced = set(r_["elem"] for r_ in rows if not r_.get("water"))
     for ph, cp in zip(p["phases"], comp):
         for el in cp:
             if el not in SKIP_ELEMS and el not in balanced:
@@ -458,7 +479,7 @@ def build_problem(r, meta=None):
     cons = [ph["constraint"] for ph in p["phases"]]
     return {"ns": ns, "nph": nph, "toler": toler, "sgn": sgn, "rows": rows, "cons": cons, "lay": lay, "p": p,
             "range": bool(p["range"]), "minimal": bool(p["minimal"]),
-            "ph_unc": [H(s["ph_unc"]) for s in p["solns"]], "carbon": bool(p["carbon"])}
+            "ph_unc": [H(s["ph_unc"]) for s in p["solns"]], "carbon": bool(p["carbon"]), "water_unc": H(p["water_uncertainty"])}
 
 
 def model_terms(pb, m):
@@ -472,6 +493,17 @@ def model_terms(pb, m):
     rows = []
     for r_ in pb["rows"]:
         sts = []
+        if r_.get("water"):
+            # the single water adjustment (column "water", coefficient +1) is attached to a solution with non-zero fraction:
+            # sg*(f*T + e) with e = eps_w/sg ; bound water_uncertainty (absolute) expressed as b*f
+            ew = x[lay["col_water"]]
+            k = 0 if fr_[0] > 0 else ns - 1
+            e = [Fr(0)] * ns
+            b = [Fr(0)] * ns
+            e[k] = ew / pb["sgn"][k]
+            b[k] = pb["water_unc"] / fr_[k] if fr_[k] > 0 else Fr(0)
+            rows.append({"elem": r_["elem"], "states": [{"T": r_["states"][0]["T"], "e": e, "b": b, "name": "water"}], "c": r_["c"], "water": True})
+            continue
         for st in r_["states"]:
             e = [x[lay["col_epsilon"] + st["j"] * ns + s] for s in range(ns)]
             sts.append({"T": st["T"], "e": e, "b": st["bound"], "name": st["name"]})
@@ -506,6 +538,38 @@ def py_residuals(pb, mt):
         tot += sum(t * c for t, c in zip(mt["tr"], r_["c"]))
         out[r_["elem"]] = tot
     return out
+
+
+def lp_violations(pb, m):
+    """Does the reported vector satisfy the constraint system that setup_inverse() itself built (my_array rows row_mb..count_rows and
+    the sign vector delta, read from the engine)?  Exact arithmetic, tolerance = cl1's own 10*toler.  Used only to ATTRIBUTE a failure of the
+    specification check: system satisfied -> the system is wrong (setup); system violated -> the solver returned a bad vector."""
+    p = pb["p"]
+    lay = pb["lay"]
+    n = lay["count_unknowns"]
+    x = [H(v) for v in m["x"]]
+    tol = 10 * pb["toler"]
+    if "_rows" not in pb:
+        rows = {}
+        for rr, cc, v in p["array"]:
+            rows.setdefault(rr, {})[cc] = H(v)
+        pb["_rows"] = rows
+        pb["_delta"] = [H(v) for v in p["delta"]]
+    bad = []
+    for rr, row in pb["_rows"].items():
+        val = sum(c * x[j] for j, c in row.items() if j < n)
+        rhs = row.get(n, Fr(0))
+        if rr < lay["row_epsilon"]:
+            if abs(val - rhs) > tol:
+                bad.append("equality row %s off by %.3g" % (p["row_name"][rr], float(val - rhs)))
+        elif val - rhs > tol:
+            bad.append("inequality row %s exceeded by %.3g" % (p["row_name"][rr], float(val - rhs)))
+    for j, d in enumerate(pb["_delta"]):
+        if d > 0 and x[j] < -tol:
+            bad.append("sign constraint %s >= 0 violated: %.3g" % (p["col_name"][j], float(x[j])))
+        elif d < 0 and x[j] > tol:
+            bad.append("sign constraint %s <= 0 violated: %.3g" % (p["col_name"][j], float(x[j])))
+    return bad
 
 
 def coq_vrow(st):
@@ -624,6 +688,8 @@ def check_printed(pb, m, mt, text):
             if m2:
                 tab[m2.group(1)] = m2.groups()[1:]
         for r_ in mt["rows"]:
+            if r_.get("water"):
+                continue
             for st in r_["states"]:
                 nm = st["name"][:15]
                 if nm not in tab:
@@ -853,6 +919,8 @@ def analyse(ctx, cases, res, stats):
         me = c.get("meta")
         if me:
             for r_ in pb["rows"]:
+                if r_.get("water"):
+                    continue
                 for st in r_["states"]:
                     for s in range(pb["ns"]):
                         want = Fr(float(expected_unc(me, st["name"], s, pb["ns"])))
@@ -939,14 +1007,23 @@ def judge(ctx, items, info, coq, stats, reps=None):
                     failed_solve = not tab_[sv][1]
                     obs["last_solved_mask"] = bin(sv)
                     obs["solve_with_mask_returned_OK"] = bool(tab_[sv][1])
-            for cls in nonrange:
-                if failed_solve:
+            if nonrange:
+                lpbad = lp_violations(pb, r["models"][mi])
+                obs["violations_of_the_engine_own_constraint_system"] = lpbad[:10]
+                if not lpbad:
+                    # the vector satisfies the system setup_inverse built, but not the specification: the system is wrong
+                    key = "C18:inadmissible-model:" + "+".join(nonrange)
+                    what = ("reported inverse model satisfies the constraint system built by setup_inverse but is not an admissible mole-balance "
+                            "model (specification: solution totals, phase formulas, declared uncertainties, constraints); failed: " + ", ".join(nonrange))
+                elif failed_solve:
                     key = "C18:model-from-failed-solve"
                     what = ("minimal_solve ignores the ERROR return of its last solve_with_mask; solve_inverse then prints the failed solver's "
                             "vector as a model, and it violates mole balance / uncertainty / sign constraints")
                 else:
-                    key = "C18:inadmissible-model:%s:%s" % (cls, stratum(pb))
-                    what = "reported inverse model is not an admissible mole-balance model; failed check: %s (stratum: %s)" % (cls, stratum(pb))
+                    key = "C18:cl1-accepted-infeasible-vector"
+                    what = ("cl1 returned kode 0 for a vector that violates the constraints it was given (its final check never tests the "
+                            "dissolve/precipitate sign constraints: x_arg is never filled; round-off in degenerate problems); the model is "
+                            "reported and is not admissible: " + ", ".join(nonrange))
                 stats["inadmissible: " + key] += 1
                 report(ctx, key, what, {"kind": "input", "input_text": c["text"], "database": "phreeqc.dat", "model_index": mi,
                                         "observed": obs, "expected": "check_inverse_model = true (Coq, exact arithmetic)"})
